@@ -71,6 +71,7 @@ def run_case(case):
                 used.add(a)
                 return a
     lrng = random.Random(case['seed'] ^ 0x1A7E)
+    ghost_addrs = []
     late_subs = [0]
     ghosts = [0]
     LOW = C.name_value(identity_number=1)            # contender NAME lower than every CA's
@@ -131,6 +132,7 @@ def run_case(case):
         # one callback registered back to back for two addresses nobody else owns, then removed: afterwards both addresses are foreign again
         g = mkcb('removed_ecu')
         ga = [fresh(2, 250), fresh(2, 250)]
+        ghost_addrs.extend(ga)
         for a in ga:
             A.ecu.subscribe(g, a)
         if lrng.random() < 0.5:
@@ -138,6 +140,15 @@ def run_case(case):
         else:
             A.ecu.unsubscribe(g)
         ghosts[0] += 1
+    # history: while the configuration is still being established (claims made at 0.1, losses at 0.4, removals at 0.5) every address that is
+    # served at that moment receives one destination-specific frame -- what the stack remembers from then must not outlive the ownership
+    def early_traffic():
+        targets = [c['pref'] for c in cas] + [l['addr'] for l in listeners.values() if l['kind'] == 'int'] + list(ghost_addrs)
+        for a in targets:
+            A.on_frame(Frame(-1, sim.now, 'X', C.make_id(3, 0, 0xD0 if not fd else 0xD1, a, 0x8F), bytes([a, 0, 9, 9, 9]), fd))
+            if fd:
+                A.on_frame(Frame(-1, sim.now, 'X', C.make_id(6, 0, C.PF_MULTI_PG, a, 0x8F), C.mpg_frame([(0x0D200, bytes([a, 1, 1]))]), fd))
+    sim.at(0.3, early_traffic)
     W.run(1.0)
     ST = W.j1939.ControllerApplication.State
     # the harness's own view of the CA states at the injection instant (cross-checked against the API, not derived from it)
@@ -221,6 +232,8 @@ def run_case(case):
             # Multi-PG with one C-PG
             payload = bytes([d, 7, 7])
             inject(C.make_id(6, 0, C.PF_MULTI_PG, d, SA), C.mpg_frame([(0x0D200, payload)]), 'multi_pg', d, ex, check_state=not owned(d))
+            # a contained group in PDU2 format inside a frame addressed to d: the frame's destination decides who gets it
+            inject(C.make_id(6, 0, C.PF_MULTI_PG, d, SA), C.mpg_frame([(0x0FE10, payload)]), 'multi_pg_pdu2', d, ex, check_state=not owned(d))
         if owned(d):
             continue
         protos = []
